@@ -944,13 +944,14 @@ def _inline_read_aliases_1(fn, strict, read_chain, stored, params, body):
                                 and _movable_value(s_.value)):
                             return False        # the read would move past something that can raise
                     return True
+                saved = copy.deepcopy(body[i + 1:])
                 descend(body, i + 1)
                 if replaced == total and total > 0:
                     del body[i]
                     changed = True
                     continue
-                if replaced:
-                    changed = True
+                # all or nothing: a name written out in some places only would leave two spellings of one quantity
+                body[i + 1:] = saved
         i += 1
     return changed
 
@@ -1800,26 +1801,6 @@ def _norm_simple(stmts, ctx):
                         changed = True
                         i += 1
                         continue
-            # if c: ..; x = E1  else: ..; x = E2     followed by     if TEST(x): X else: Y
-            # where TEST reads x and literals only and E1 / E2 are (conditional expressions of) literals that decide it:
-            # the second ``if`` is threaded into the arms of the first
-            if isinstance(st, ast.If) and st.orelse and isinstance(nxt, ast.If):
-                def last_assign(block):
-                    if block and isinstance(block[-1], ast.Assign) and len(block[-1].targets) == 1 \
-                            and isinstance(block[-1].targets[0], ast.Name):
-                        return block[-1].targets[0].id, _const_set(block[-1].value)
-                    return None, None
-                x1, vs1 = last_assign(st.body)
-                x2, vs2 = last_assign(st.orelse)
-                if x1 is not None and x1 == x2 and vs1 and vs2:
-                    d1, d2 = _decide_test(nxt.test, x1, vs1), _decide_test(nxt.test, x1, vs2)
-                    if d1 is not None and d2 is not None and d1 != d2:
-                        pick = lambda d: [ast.parse(ast.unparse(x_)).body[0] for x_ in (nxt.body if d else nxt.orelse)]
-                        out.append(ast.If(test=st.test, body=list(st.body) + pick(d1), orelse=list(st.orelse) + pick(d2),
-                                          lineno=st.lineno, col_offset=0))
-                        changed = True
-                        i += 2
-                        continue
             # if c: ..; t = K1  else: ..; t = K2     followed by     if [not] t: X        (t a flag used nowhere else)
             if isinstance(st, ast.If) and st.orelse and isinstance(nxt, ast.If) and not nxt.orelse and ctx.get("root") is not None:
                 def flag_of(block):
@@ -1844,6 +1825,26 @@ def _norm_simple(stmts, ctx):
                     changed = True
                     i += 2
                     continue
+            # if c: ..; x = E1  else: ..; x = E2     followed by     if TEST(x): X else: Y
+            # where TEST reads x and literals only and E1 / E2 are (conditional expressions of) literals that decide it:
+            # the second ``if`` is threaded into the arms of the first
+            if isinstance(st, ast.If) and st.orelse and isinstance(nxt, ast.If):
+                def last_assign(block):
+                    if block and isinstance(block[-1], ast.Assign) and len(block[-1].targets) == 1 \
+                            and isinstance(block[-1].targets[0], ast.Name):
+                        return block[-1].targets[0].id, _const_set(block[-1].value)
+                    return None, None
+                x1, vs1 = last_assign(st.body)
+                x2, vs2 = last_assign(st.orelse)
+                if x1 is not None and x1 == x2 and vs1 and vs2:
+                    d1, d2 = _decide_test(nxt.test, x1, vs1), _decide_test(nxt.test, x1, vs2)
+                    if d1 is not None and d2 is not None and d1 != d2:
+                        pick = lambda d: [ast.parse(ast.unparse(x_)).body[0] for x_ in (nxt.body if d else nxt.orelse)]
+                        out.append(ast.If(test=st.test, body=list(st.body) + pick(d1), orelse=list(st.orelse) + pick(d2),
+                                          lineno=st.lineno, col_offset=0))
+                        changed = True
+                        i += 2
+                        continue
             if isinstance(st, ast.Return) and isinstance(st.value, ast.Call) and st.value.args \
                     and isinstance(st.value.args[0], ast.IfExp) and (
                         isinstance(st.value.func, ast.Name) or (isinstance(st.value.func, ast.Attribute)
@@ -3477,6 +3478,25 @@ def _local_lambdas_to_defs(f):
         elif isinstance(n, FuncTypes) and n is not f:
             stores[n.name] = stores.get(n.name, 0) + 2
     changed = False
+    # the other way round for a name that is bound several times: ``def name(a): return E`` (no decorator, no default)
+    # re-binds the variable like ``name = lambda a: E`` does, and is treated like the assignment it is
+    plain_stores = {}
+    for n in ast.walk(f):
+        if isinstance(n, ast.Name) and isinstance(n.ctx, ast.Store):
+            plain_stores[n.id] = plain_stores.get(n.id, 0) + 1
+    for blk in [b for n in ast.walk(f) for b in (getattr(n, "body", None), getattr(n, "orelse", None), getattr(n, "finalbody", None))
+                if isinstance(b, list) and b and isinstance(b[0], ast.stmt)]:
+        for i, st in enumerate(blk):
+            if isinstance(st, ast.FunctionDef) and st is not f and not st.decorator_list and plain_stores.get(st.name, 0) >= 1:
+                b_ = docstring_free(st.body)
+                a = st.args
+                if len(b_) == 1 and isinstance(b_[0], ast.Return) and b_[0].value is not None and not a.defaults \
+                        and not a.kw_defaults and not a.vararg and not a.kwarg and not a.kwonlyargs \
+                        and not any(isinstance(x, (ast.Yield, ast.YieldFrom)) for x in ast.walk(st)):
+                    blk[i] = ast.Assign(targets=[ast.Name(id=st.name, ctx=ast.Store())],
+                                        value=ast.Lambda(args=a, body=b_[0].value), lineno=st.lineno, col_offset=0)
+                    ast.fix_missing_locations(blk[i])
+                    changed = True
     for blk in [b for n in ast.walk(f) for b in (getattr(n, "body", None), getattr(n, "orelse", None), getattr(n, "finalbody", None))
                 if isinstance(b, list) and b and isinstance(b[0], ast.stmt)]:
         for i, st in enumerate(blk):
